@@ -1,3 +1,5 @@
 import Csverif.Model.Path
 import Csverif.Model.Storage
 import Csverif.Props.C09
+import Csverif.Props.C13
+import Csverif.Props.C18
